@@ -81,7 +81,16 @@ pub fn parse_response<B>(reader: BaseStream, request: &PreparedRequest<B>, url: 
     #[cfg(kani)]
     let mut reader = BufReader::with_capacity(crate::verif::HEAD_BUF_CAP, reader);
     let (status, mut headers) = parse_response_head(&mut reader, request.base_settings.max_headers)?;
-    let body_reader = BodyReader::new(&headers, reader)?;
+    let body_reader = if request.method() == http::Method::HEAD
+        || status.is_informational()
+        || status == StatusCode::NO_CONTENT
+        || status == StatusCode::NOT_MODIFIED
+    {
+        // These responses never have a body, whatever the headers say.
+        BodyReader::empty(reader)
+    } else {
+        BodyReader::new(&headers, reader)?
+    };
     let compressed_reader = CompressedReader::new(&headers, request, body_reader)?;
     let response_reader = ResponseReader::new(&headers, request, compressed_reader);
 
